@@ -127,11 +127,28 @@ def close(a, b, rtol=1e-7, atol=1e-9):
     return a == b
 
 
-def replay_record(qualname, ce):
+def custom_replay(info, ce, clause=None):
+    """Property-specific replay (e.g. object histories): contracts/replay_<module>.py : replay(info, counterexample)."""
+    import importlib.util
+    here = os.path.dirname(os.path.dirname(os.path.abspath(__file__)))
+    path = os.path.join(here, 'contracts', 'replay_%s.py' % info['module'])
+    spec = importlib.util.spec_from_file_location('replay_' + info['module'], path)
+    m = importlib.util.module_from_spec(spec)
+    spec.loader.exec_module(m)
+    info = dict(info, clause=clause or info.get('clause', ''))
+    try:
+        return m.replay(info, ce)
+    except Exception as e:
+        return dict(status='not-replayable', detail='custom replay crashed: %s: %s' % (type(e).__name__, e))
+
+
+def replay_record(qualname, ce, info=None, clause=None):
     """Run the real function on the counter-model's arguments; compare with the engine's prediction.
 
     Returns dict(status in {'confirmed','not-reproduced','not-replayable'}, observed=..., detail=...).
     """
+    if info:
+        return custom_replay(info, ce, clause)
     if not qualname or ce is None or 'args' not in ce or ce.get('render_error'):
         return dict(status='not-replayable', detail=ce.get('render_error', 'no concrete arguments') if ce else 'no model')
     args = ce['args']
@@ -177,6 +194,6 @@ def main_replay(prop, path):
         bad = ns['witness']()
         print('witness still fails' if bad else 'witness no longer fails')
         return 1 if bad else 0
-    r = replay_record(d.get('function'), d.get('counterexample'))
+    r = replay_record(d.get('function'), d.get('counterexample'), d.get('replay_info'), d.get('clause'))
     print(json.dumps(r, indent=1)[:4000])
     return 1 if r['status'] == 'confirmed' else 0
